@@ -221,6 +221,9 @@ class E5:
             if v[0] in ("tokref", "tok") and len(v) == 3:
                 return ("tokdisc", v[0], v[1])
             if v[0] == "cf":
+                if len(v) > 2:
+                    # `?` applied to a value whose variant is known on this path (an Err / Ok built by a spliced helper)
+                    return ("i", 0 if v[2] == "continue" else 1)
                 return ("cfdisc", v[1])
             if v[0] == "ok":
                 return ("i", 0)
@@ -340,6 +343,8 @@ class E5:
                 return done(("cf", ("tokref", 0)))
             if a is not TOP and a[0] == "err":
                 return done(("cf", TOP, "break"))
+            if a is not TOP and a[0] == "ok":
+                return done(("cf", a[1], "continue"))
             return done(("cf", TOP))
         if key == "std::ops::FromResidual::from_residual":
             return done(("err",))
